@@ -290,3 +290,32 @@ class SelectMaster:
 
     def modifies(self):
         return [field(self.instance_state_modes[self.supvisors.mapper.local_identifier], 'master_identifier')]
+
+
+@contract('rpcinterface:RPCInterface._check_process_insertion', props=[])
+class RpcCheckProcessInsertion:
+    """post-check of update_numprocs (NOT verified: its loop collects errors in a literal list): raises only
+    RPCError(Faults.FAILED)"""
+    assumed = True
+    raises = ('RPCError',)
+
+    def modifies(self):
+        return []
+
+    def exc_RPCError_failed(self, exc):
+        return exc.code == Faults.FAILED
+
+
+@contract('rpcinterface:RPCInterface._decrease_numprocs', props=[])
+class RpcDecreaseNumprocs:
+    """second half of update_numprocs when numprocs decreases (NOT verified: list comprehension calling
+    context.get_process, filter()): stops the obsolete processes; raises only RPCError(FAILED / STILL_RUNNING).
+    The value returned (True or the deferred closure) is opaque."""
+    assumed = True
+    raises = ('RPCError',)
+    returns = 'bool'
+    types = {'namespecs': 'List[str]', 'wait': 'bool'}
+    effect = 'rpc._decrease_numprocs'
+
+    def exc_RPCError_failed(self, exc):
+        return exc.code == Faults.FAILED or exc.code == Faults.STILL_RUNNING
